@@ -190,3 +190,118 @@ Proof.
   - apply g_pa_utf8_add_eq, Hc.
   - unfold g_pa_ascii_add, char_add. rewrite Hc. reflexivity.
 Qed.
+
+(* ---- no panic ------------------------------------------------------------------------- *)
+
+Theorem translated_advance_never_panics : forall p r b, g_u8_parser_advance p r b <> None.
+Proof. intros p r b. rewrite g_u8_parser_advance_eq. discriminate. Qed.
+
+Theorem translated_run_never_panics : forall bs p r, g_u8_run p r bs <> None.
+Proof. intros bs p r. rewrite translated_run_is_model. discriminate. Qed.
+
+(* ---- the precondition of `unsafe { char::from_u32_unchecked(point) }` ------------------------
+   The translation reads the unsafe call as the identity on the number.  That is what the call does
+   when its argument is a Unicode scalar value, which is the case for every decoder that was started
+   from `Parser::new()` and fed bytes: the invariant below (per automaton state, which partial code
+   points can have been accumulated) is kept by every step and makes every code point handed to the
+   receiver a scalar value. *)
+
+Definition u8_inv (p : u8parser) : Prop :=
+  let x := u8point p in
+  match u8st p with
+  | U8Ground => x = 0
+  | U8Tail1 => exists k, x = k * 64 /\ 2 <= k /\ k < 17408 /\ (k < 864 \/ 896 <= k)
+  | U8Tail2 => exists k, x = k * 4096 /\ 1 <= k /\ k < 272 /\ k <> 13
+  | U8Tail3 => exists k, x = k * 262144 /\ 1 <= k /\ k <= 3
+  | U8_3_2_e0 => x = 0
+  | U8_3_2_ed => x = 13 * 4096
+  | U8_4_3_f0 => x = 0
+  | U8_4_3_f4 => x = 4 * 262144
+  end.
+
+Definition u8_out_scalar (o : u8out) : Prop :=
+  match o with U8Codepoint c => u8_is_scalar c = true | _ => True end.
+
+Lemma u8_is_scalar_intro : forall c, c < 55296 \/ (57343 < c /\ c < 1114112) -> u8_is_scalar c = true.
+Proof.
+  intros c [H | [H1 H2]]; unfold u8_is_scalar.
+  - apply N.ltb_lt in H. rewrite H. reflexivity.
+  - apply N.ltb_lt in H1, H2. rewrite H1, H2. apply orb_true_r.
+Qed.
+
+Lemma mod_parts : forall b m, m <> 0 -> b = m * (b / m) + b mod m /\ b mod m < m.
+Proof. intros b m Hm. split; [apply N.div_mod, Hm | apply N.mod_lt, Hm]. Qed.
+
+(* [b mod m] for the masks in use, as linear facts over fresh variables ([lia] does not look
+   inside [b / m], [b mod m]) *)
+Ltac mod_fact b m :=
+  let q := fresh "q" in let r := fresh "r" in
+  pose proof (mod_parts b m ltac:(discriminate)) as [? ?];
+  set (q := b / m) in *; set (r := b mod m) in *; clearbody q r.
+Ltac mod_facts b := mod_fact b 64; mod_fact b 32; mod_fact b 16; mod_fact b 8.
+
+(* the tests that held on the way to a leaf, as propositions; the failed ones are not needed *)
+Ltac held_tests :=
+  repeat match goal with
+  | H : rng _ _ _ = true |- _ =>
+      unfold rng in H; apply andb_true_iff in H; destruct H as [?%N.leb_le ?%N.leb_le]
+  | H : (_ =? _) = true |- _ => apply N.eqb_eq in H
+  | H : _ = false |- _ => clear H
+  end.
+
+Ltac to_arith :=
+  rewrite ?N.lor_0_l;
+  try (rewrite lor64 by lia); try (rewrite lor4096 by lia); try (rewrite lor262144 by lia).
+
+(* the new partial code point is [k' * unit] for one of these k' *)
+Ltac new_point b :=
+  first [ reflexivity | lia
+        | eexists; split; [reflexivity | lia]
+        | match goal with |- exists _, ?k * _ + ?r * _ = _ /\ _ => exists (k * 64 + r); lia end ].
+
+Theorem u8_inv_step : forall p b, b < 256 -> u8_inv p ->
+  u8_inv (fst (u8_parser_advance p b)) /\ u8_out_scalar (snd (u8_parser_advance p b)).
+Proof.
+  intros [x s] b Hb Hinv. unfold u8_inv in Hinv. cbn [u8st u8point] in Hinv.
+  unfold u8_parser_advance, u8_advance. cbn [u8st u8point].
+  change CONTINUATION_MASK with 63.
+  rewrite ?land63, ?land31, ?land15, ?land7, ?shl6, ?shl12, ?shl18.
+  mod_facts b.
+  destruct s;
+    try (destruct Hinv as (k & Hx & Hinv)); subst x;
+    split_tests; held_tests;
+    cbn [fst snd u8st u8point u8_out_scalar]; unfold u8_inv; cbn [u8st u8point];
+    to_arith;
+    (split; [new_point b | first [exact I | apply u8_is_scalar_intro; lia]]).
+Qed.
+
+Lemma u8_inv_new : u8_inv u8_new.
+Proof. reflexivity. Qed.
+
+Lemma u8_events_scalar : forall o, u8_out_scalar o -> Forall u8_out_scalar (u8_events o).
+Proof. intros [| c |] H; cbn [u8_events]; repeat constructor; exact H. Qed.
+
+Lemma u8_run_inv : forall bs p, Forall (fun b => b < 256) bs -> u8_inv p ->
+  u8_inv (fst (u8_model_run p bs)) /\ Forall u8_out_scalar (snd (u8_model_run p bs)).
+Proof.
+  induction bs as [|b rest IH]; intros p Hbs Hp; cbn [u8_model_run].
+  - split; [exact Hp | constructor].
+  - inversion Hbs as [|? ? Hb Hrest]; subst.
+    destruct (u8_inv_step p b Hb Hp) as [Hp1 Ho].
+    destruct (u8_parser_advance p b) as [p1 o]. cbn [fst snd] in Hp1, Ho.
+    destruct (IH p1 Hrest Hp1) as [Hp2 Hevs].
+    destruct (u8_model_run p1 rest) as [p2 evs]. cbn [fst snd] in *.
+    split; [exact Hp2|]. apply Forall_app. split; [apply u8_events_scalar, Ho | exact Hevs].
+Qed.
+
+(* every code point the TRANSLATED decoder, started from Parser::new() / Parser::default(), hands to its
+   receiver is a Unicode scalar value: the unsafe `char::from_u32_unchecked` is within its contract, and
+   `byte as char` on the ASCII arm is below 128 *)
+Theorem unchecked_char_is_scalar : forall bs p r,
+  Forall (fun b => b < 256) bs ->
+  g_u8_run g_u8_parser_new [] bs = Some (p, r) -> Forall u8_out_scalar r.
+Proof.
+  intros bs p r Hbs H. rewrite translated_run_is_model, g_u8_parser_new_eq in H.
+  injection H as _ <-. cbn [app].
+  exact (proj2 (u8_run_inv bs u8_new Hbs u8_inv_new)).
+Qed.
